@@ -25,12 +25,33 @@ def sh(cmd):
     return p.returncode, p.stdout + p.stderr
 
 
-def prepare(kind, name):
+def prepare(kind, name, patch=None):
     d = os.path.join(TMP, kind, name)
     shutil.rmtree(d, ignore_errors=True)
     os.makedirs(d)
-    rc, out = sh(f"git -C /repo archive HEAD msmart reference | tar -x -C {d} && cd {d} && git apply --whitespace=nowarn {VERIF}/{kind}/{name}/patch.diff")
+    patch = patch or f"{VERIF}/{kind}/{name}/patch.diff"
+    rc, out = sh(f"git -C /repo archive HEAD msmart reference | tar -x -C {d} && cd {d} && git apply --whitespace=nowarn {patch}")
     return rc == 0, out
+
+
+def external(root, kind):
+    """<root>/<Cxx>/<variant>/patch.diff trees produced by sub-agents, before they are imported: `--from <root> neutral|seeded`"""
+    jobs, bad = [], []
+    for pid in sorted(os.listdir(root)):
+        d0 = os.path.join(root, pid)
+        if not os.path.isdir(d0):
+            continue
+        for var in sorted(os.listdir(d0)):
+            pf = os.path.join(d0, var, "patch.diff")
+            if not os.path.exists(pf):
+                continue
+            name = f"{pid}-{var}"
+            ok, out = prepare(kind, name, pf)
+            if not ok:
+                bad.append((kind, name, "apply", 3, out[-200:]))
+                continue
+            jobs += [(kind, name, pid)] if kind == "seeded" else [(kind, name, p) for p in ALL]
+    return jobs, bad
 
 
 def one(job):
@@ -46,10 +67,17 @@ def main(argv):
     only = {a for a in argv if a not in ("clean", "seeded", "neutral") and not a.startswith("-")}
     jobs, bad = [], []
     try:
-        if "clean" in kinds and not only:
+        if "--from" in argv:
+            root = argv[argv.index("--from") + 1]
+            only.discard(root)
+            j2, b2 = external(root, kinds[0])
+            jobs += [j for j in j2 if not only or j[1] in only or j[1].split("-")[0] in only]
+            bad += b2
+            kinds = [kinds[0]]
+        elif "clean" in kinds and not only:
             jobs += [("clean", "repo", p) for p in ALL]
         for kind in ("seeded", "neutral"):
-            if kind not in kinds:
+            if kind not in kinds or "--from" in argv:
                 continue
             root = os.path.join(VERIF, kind)
             for n in sorted(os.listdir(root)):
